@@ -53,6 +53,12 @@ pub mod server_std {
         /// Lock invariant: true of every value ever stored in the lock.
         pub uninterp spec fn holds(&self, v: T) -> bool;
 
+        /// `RwLock::new`: no postcondition (the lock invariant `holds` is chosen by the owner of the
+        /// lock, see `Server::wf`; nothing about it is assumed here).
+        #[verifier::external_body]
+        pub fn new(v: T) -> (r: RwLock<T>)
+        { unimplemented!() }
+
         #[verifier::external_body]
         pub fn read(&self) -> (r: LockResult<RwLockReadGuard<'_, T>>)
             ensures self.holds(r.get().val())
@@ -123,6 +129,12 @@ pub mod server_std {
     pub struct TsigKeyMap { x: std::collections::HashMap<Box<Name>, (Algorithm, Box<[u8]>)> }
 
     impl TsigKeyMap {
+        /// `HashMap::new`: the empty table.
+        #[verifier::external_body]
+        pub fn new() -> (r: TsigKeyMap)
+            ensures forall|k: Name| #[trigger] r.entry_for(k) is None
+        { unimplemented!() }
+
         /// The entry filed under a name equal (`Name::eq`, ASCII-case-insensitive) to `k`.
         pub uninterp spec fn entry_for(&self, k: Name) -> Option<&(Algorithm, Box<[u8]>)>;
 
